@@ -17,7 +17,7 @@ LEVEL_TEXT = ("For every bounded HTML element tree (img / div.admonition / other
               "the option syntax) and every on/off combination of html_image/html_admonition, z3 shows that non-convertible HTML yields exactly one raw-HTML node holding the input text, "
               "that an <img> is handed to the image directive with its whitelisted attributes arriving unchanged when the generated option block is read back by the real option parser, "
               "that admonition title/class/name/body are carried, that a tokenizer failure degrades to one [myst.html] warning plus raw HTML, and - on symbolic text - that the GFM filter "
-              "neutralises exactly the openers a regex-free specification identifies and changes nothing else.")
+              "neutralises exactly the openers a regex-free specification identifies and changes nothing else; real Sphinx builds with figure-md show that html_image is forced on only inside that directive.")
 LEVEL_NOTE = ("Stubs: tokenize_html returns a tree built by the real element classes from a solver-chosen event sequence, or raises; renderer.run_directive records its arguments (equality of "
               "the docutils nodes produced by the image/admonition directive with the directive spelling is outside); docutils node classes used by html_to_nodes are recording stubs.")
 BUDGET_S = {"quick": 150, "thorough": 1200}
